@@ -56,8 +56,15 @@ def impl(case):
             v = emdfile._get_EMD_version(pq)
         except Exception as e:
             return {"r": False, "no_version_reported_for_a_file_the_package_wrote": type(e).__name__}
-        return {"r": bool(emdfile._version_is_geq(v, (1, 0, 0))) and list(v) == case["c"]}
-    return {"r": bool(emdfile._version_is_geq(tuple(case["c"]), tuple(case["m"])))}
+        # the triple goes into the helper AS THE PACKAGE REPORTED IT (whatever integer type the header gave it)
+        try:
+            return {"r": bool(emdfile._version_is_geq(v, (1, 0, 0))) and list(v) == case["c"]}
+        except Exception as e:
+            return {"r": False, "comparison_raised_on_the_reported_version": type(e).__name__}
+    try:
+        return {"r": bool(emdfile._version_is_geq(tuple(case["c"]), tuple(case["m"])))}
+    except Exception as e:
+        return {"r": "raised", "comparison_raised": type(e).__name__}
 
 
 def model(drv, case):
